@@ -36,6 +36,11 @@ CHECKS = {
             "Golden inputs of every schema version plus minimal and raw documents; every key path present plus every string literal of later steps placed under root and top-level objects, replaced by 9 shapes (1 deviation in quick, pairs in thorough); list-duplication variants; each migrated in one run and through every split point; no panic, error=>unchanged, stamped, idempotent, split-independent, unrelated key kept, loader accepts valid inputs.",
             "yaml.v3 round trip is faithful; validity under a document's own schema assumed only for golden inputs and their list-duplication variants; bcrypt hashes (random salt) compared as equal.",
             "DESIGN.md §4 C13", "E1-stateless"),
+    "C19": ("model_checking",
+            "explicit-state BFS over check/clock-advance (and database-switch) histories on the real hashprefix.Checker with a scripted lookup service, plus exhaustive enumeration of host names for the privacy clause; reference verdict and fresh-Checker differential oracle",
+            "25 service databases (colliding prefixes in both orders, parent/child, over-long/short/non-hex TXT strings) x 2 answer packings x 3 cache sizes, histories of depth 5 (quick) / 6 (thorough) of checks and clock steps straddling the cache time; every check compared with the reference verdict and with a fresh Checker at the same instant; every question sent checked for the hash-prefix shape. Stateless: ~17k host names (1..8 labels x 11 suffix kinds x case) through Check/CheckHost.",
+            "names under private suffixes/unmanaged TLDs may expose prefixes of their last-four-label parents (intended behaviour per the repository's own tests); upstream errors are not injected.",
+            "DESIGN.md §4 C19", "E1-BFS"),
     "C20": ("exploration",
             "bounded exhaustive enumeration of file layouts on a scaled-constant build and a byte-by-byte boundary sweep on the real-constant build, reversed-lines and seek-classification oracles",
             "Scaled build (maxEntrySize 64 / buffer 6400 substituted in a freshly copied qlogfile.go): every file of 0..5 (quick) / 0..7 (thorough) tail lines over 4 lengths x 5 filler prefixes x 3 gap patterns; every present and absent seek target on a reused reader object; rotated+current pairs at every split. Real build: 1.6 MB / 3.2 MB files with the tail length swept byte by byte so buffer boundaries visit every offset in a line.",
